@@ -109,6 +109,104 @@ impl Family for FResolve {
     }
 }
 
+/// An import list belongs to the module that declares it and to no other: the tree of F-resolve with
+/// the import list on one module and the (import-less) caller in another one - a descendant, the
+/// parent, a sibling.
+pub struct FImportScope;
+
+impl FImportScope {
+    /// (module carrying the imports, module of the caller): 0 = root, 1 = a, 2 = a.b, 3 = b
+    const PAIRS: [(u8, u8); 6] = [(0, 1), (0, 2), (1, 2), (2, 1), (3, 1), (1, 3)];
+}
+
+impl Family for FImportScope {
+    fn name(&self) -> &'static str {
+        "F-import-scope"
+    }
+    fn len(&self) -> u64 {
+        (1 << FResolve::PRESENCE_BITS) * Self::PAIRS.len() as u64 * CALLED.len() as u64 * IMPORT_SETS.len() as u64
+    }
+    fn case(&self, idx: u64) -> Module {
+        let mut i = idx;
+        let bits = i % (1 << FResolve::PRESENCE_BITS);
+        i >>= FResolve::PRESENCE_BITS;
+        let (importer, site) = Self::PAIRS[(i % Self::PAIRS.len() as u64) as usize];
+        i /= Self::PAIRS.len() as u64;
+        let called = CALLED[(i % CALLED.len() as u64) as usize];
+        i /= CALLED.len() as u64;
+        let imports: Vec<String> = IMPORT_SETS[i as usize].iter().map(|x| x.to_string()).collect();
+        let has = |k: u64| bits & (1 << k) != 0;
+        let caller = func(&[], vec![sv("canary", int(5)), sg("got", call(called, vec![])), native("log2", vec![s("canary"), rv("canary")])]);
+        let mut mods: [Module; 4] = Default::default();
+        for (k, (mi, fname, full)) in [(2usize, "f", "a.b.f"), (2, "g", "a.b.g"), (1, "f", "a.f"), (1, "g", "a.g"), (3, "f", "b.f"), (3, "g", "b.g"), (0, "f", "f")].into_iter().enumerate() {
+            if has(k as u64) {
+                mods[mi].functions.push((fname.into(), tagged(full)));
+            }
+        }
+        mods[importer as usize].imports = imports;
+        let path = ["caller", "a.caller", "a.b.caller", "b.caller"][site as usize];
+        mods[site as usize].functions.push(("caller".into(), caller));
+        let [mut root, mut a, ab, bm] = mods;
+        root.functions.insert(0, ("main".into(), func(&[], vec![call(path, vec![])])));
+        a.submodules.push(("b".into(), ab));
+        root.submodules.push(("a".into(), a));
+        root.submodules.push(("b".into(), bm));
+        root
+    }
+}
+
+/// Module and function names that look like numbers or like parts of a location (`7`, `0`, `007`,
+/// `1_2`, `std_1`): legal identifiers; an error raised inside such a module carries the name in
+/// the namespace of its trace.
+pub struct FDigitNames;
+
+impl FDigitNames {
+    const NAMES: [&'static str; 6] = ["7", "0", "007", "1_2", "_", "std_1"];
+}
+
+impl Family for FDigitNames {
+    fn name(&self) -> &'static str {
+        "F-digit-names"
+    }
+    fn len(&self) -> u64 {
+        (Self::NAMES.len() * Self::NAMES.len() * 3 * 2) as u64
+    }
+    fn case(&self, idx: u64) -> Module {
+        let n = Self::NAMES.len() as u64;
+        let outer = Self::NAMES[(idx % n) as usize];
+        let inner = Self::NAMES[((idx / n) % n) as usize];
+        let depth = (idx / (n * n)) % 3;
+        let fails = idx / (n * n * 3) == 1;
+        // the function is named like a number too
+        let mut body = vec![native("log", vec![s("ran")]), sv("x", int(1))];
+        if fails {
+            body.push(sg("_sink", bin(BinOp::Add, rv("x"), native("missing_native", vec![]))));
+        }
+        body.push(C::Return(b(s("done"))));
+        let mut target = Module::default();
+        target.functions.push(("9".into(), func(&[], body)));
+        let mut root = Module::default();
+        let path = match depth {
+            0 => {
+                root.functions.push(("9".into(), target.functions.pop().unwrap().1));
+                "9".to_string()
+            }
+            1 => {
+                root.submodules.push((outer.into(), target));
+                format!("{outer}.9")
+            }
+            _ => {
+                let mut mid = Module::default();
+                mid.submodules.push((inner.into(), target));
+                root.submodules.push((outer.into(), mid));
+                format!("{outer}.{inner}.9")
+            }
+        };
+        root.functions.insert(0, ("main".into(), func(&[], vec![sg("got", call(&path, vec![]))])));
+        root
+    }
+}
+
 /// names, duplicates and reserved module names at every level
 pub struct FBadNames;
 
